@@ -15,6 +15,7 @@ from ..oracles import perm
 from ..oracles.perm import labelled, rebuild, same_entries
 from ..model import Snap
 
+PIGGY = True  # thorough tier also runs the repository tests / howtos / examples under these monitors
 LEVEL = "exploration"
 BUDGET = {"quick": 55, "thorough": 420}
 SHARDS = {"quick": 1, "thorough": 16}
